@@ -11,6 +11,20 @@ Monitors (child, real cffi from /repo/src):
     demanded) and near-miss neighbours (different key demanded).
 Determinism: the same inputs are re-evaluated by un-monitored fresh processes
 under several PYTHONHASHSEEDs and compared name by name in the parent.
+Audit extension:
+  * entry points / histories that must give the key of the plain spelling:
+    ffi.verify() itself (Verifier.load_library is stubbed in the children so
+    that nothing is compiled; the name is chosen in Verifier.__init__), cdef()
+    with override=/packed=/pack= and embedding_api(), Verifier() calls made
+    between the cdef() calls of one FFI (every prefix key is decoded), failing
+    cdef() calls in between (their text may or may not be part of the key:
+    both accepted, counted);
+  * keyword values of kinds flatten() does not list (set/frozenset/float/None/
+    bytes): rejected or not, the outcome must not depend on the hash seed;
+  * name probe: the CRC proxy returns chosen CRC values (leading zero nibbles,
+    0, 2**32-1, digit strings that are ambiguous when concatenated) and the
+    name must be distinct for distinct (crc1, crc2, tag, engine);
+  * long strings / long lists (multi-digit length prefixes) as keyword values.
 """
 import sys, os, re, hashlib, random, copy, warnings
 import concurrent.futures as cf
@@ -26,14 +40,21 @@ RULE = ("input = (preamble text, list of parseable cdef texts incl. ffi.include(
         "moved across the preamble/cdef and cdef/cdef boundaries, include vs flat, tag, engine); "
         "plus flatten() alone on random nested values; distinct = normalised input; non-trivial = "
         "has keywords or cdefs; determinism = same inputs in un-monitored fresh processes under "
-        "6 hash-seed runs")
+        "6 hash-seed runs; audit extension: each base input also through ffi.verify(), through "
+        "cdef(override=/packed=/pack=)/embedding_api(), with Verifier() calls between the cdefs, with "
+        "failing cdef() calls in between, with a set/frozenset/float/None/bytes keyword value, with "
+        "long strings and lists; name probe = chosen CRC pairs x tags x engines")
 ASSUMPTIONS = ["preamble and cdef texts are NUL-free (NUL is the key's field separator); note that "
                "a NUL inside a // or /* */ comment of a cdef does parse, see the nul-probe counters",
                "'keyword arguments' = the Extension keywords (**kwds) plus tag and "
                "force_generic_engine; tmpdir/flags/ext_package/source_extension/relative_to and "
                "cdef(packed=/pack=) are not inputs of the name by design of the statement",
                "keyword values are the kinds flatten() supports (str/int/bool/list/tuple/dict with "
-               "mutually comparable keys); no lone surrogates (the key is UTF-8 encoded)"]
+               "mutually comparable keys); no lone surrogates (the key is UTF-8 encoded)",
+               "the text of a cdef() call that raised may or may not count as a cdef source: a key "
+               "that contains exactly those texts in call order is accepted (counter tolerated:...)",
+               "cdef(override=/packed=/pack=) and embedding_api() are entry points for the same cdef "
+               "source; ffi.verify() is driven with Verifier.load_library stubbed (nothing compiled)"]
 TIMEOUT = 1500
 
 FR = ['a', 'b', 'ab', '1', '2', '0', '12', 's', 'l', 'd', 'i', '-', '1s', '2l', '0d', '1sa', '1i',
@@ -42,7 +63,13 @@ FR = ['a', 'b', 'ab', '1', '2', '0', '12', 's', 'l', 'd', 'i', '-', '1s', '2l', 
 KEYS = ['libraries', 'include_dirs', 'library_dirs', 'define_macros', 'extra_compile_args',
         'extra_link_args', 'sources', 'undef_macros', 'depends', 'language', 'py_limited_api']
 RESERVED = {'ffi', 'preamble', 'tmpdir', 'modulename', 'ext_package', 'tag', 'force_generic_engine',
-            'source_extension', 'flags', 'relative_to'}
+            'source_extension', 'flags', 'relative_to', 'source', 'self'}
+CDEF_OPTS = ['override', 'packed', 'pack', 'embedding']
+FAILING = ['int q{u}(int); undefined_{u}_t z{u};', 'int q{u}(int', 'typedef int;;; q{u} ((', 12]
+UNSUP = ['set', 'set', 'set', 'frozenset', 'float', 'none', 'bytes']
+PROBE_TAGS = ['', 't', 'a_x1', 'x', '0', 'x1', 'g', '_', 'a_', '1x2']
+PROBE_CRCS = [0, 1, 2, 3, 0xf, 0x10, 0x12, 0x23, 0x123, 0x1230, 0x231, 0xabc, 0xabc00000,
+              0x0fffffff, 0x10000000, 0x7fffffff, 0x80000000, 0xffffffff]
 DECLS = ['int f{u}(int, char *);', 'typedef struct s{u}_s {{ int a; char b[{k}]; }} s{u}_t;',
          '#define C{u} {k}', 'extern double g{u};', 'enum e{u} {{ A{u}, B{u} = {k} }};',
          'typedef unsigned int u{u}_t;']
@@ -55,6 +82,32 @@ _TRAIL = re.compile(r'/\*[^*]*\*/$')
 # ---------------------------------------------------------------- model
 class Unsupported(Exception):
     pass
+
+
+class U(object):
+    """a keyword value of a kind flatten() does not list; kept as a marker so that
+    repr(input) does not depend on the hash seed, made real at the call"""
+    def __init__(self, kind, items):
+        self.kind, self.items = kind, items
+
+    def __repr__(self):
+        return 'U(%r, %r)' % (self.kind, self.items)
+
+    def real(self):
+        k = self.kind
+        if k in ('set', 'frozenset'):
+            return (set if k == 'set' else frozenset)(self.items)
+        return {'float': 1.5, 'none': None, 'bytes': b'ab'}[k]
+
+
+def realise(x):
+    if isinstance(x, U):
+        return x.real()
+    if isinstance(x, dict):
+        return {k: realise(v) for k, v in x.items()}
+    if isinstance(x, (list, tuple)):
+        return type(x)(realise(v) for v in x)
+    return x
 
 
 def norm(x):
@@ -134,6 +187,10 @@ def text(rnd, maxn=4):
 
 def rand_value(rnd, depth=2):
     r = rnd.random()
+    if r < 0.03:
+        return text(rnd, rnd.choice([10, 40, 150]))
+    if depth and r < 0.05:
+        return [text(rnd, 1) for _ in range(rnd.randint(10, 13))]
     if depth == 0 or r < 0.4:
         return text(rnd, 3)
     if r < 0.55:
@@ -316,6 +373,33 @@ def neighbour(rnd, inp, kind):
             return None
         i = incs[0]
         out['cdefs'] = cdefs[:i] + cdefs[i] + cdefs[i + 1:]
+    elif kind == 'via-ffi-verify':
+        out['via'] = 'ffi.verify'
+    elif kind == 'cdef-options':
+        if not strs:
+            return None
+        how = {i: rnd.choice(CDEF_OPTS) for i in strs if rnd.random() < 0.7}
+        out['how'] = how or {strs[0]: rnd.choice(CDEF_OPTS)}
+    elif kind == 'verify-between-cdefs':
+        if not cdefs:
+            return None
+        out['hist'] = 'verify-between'
+    elif kind == 'failed-cdef':
+        out['failed'] = sorted([rnd.randint(0, len(cdefs)), rnd.randrange(len(FAILING))]
+                               for _ in range(rnd.randint(1, 2)))
+    elif kind == 'unsupported-value':
+        items = []
+        for _ in range(rnd.randint(2, 5)):
+            t = text(rnd, 2)
+            if t not in items:
+                items.append(t)
+        u = U(rnd.choice(UNSUP), items)
+        cand = [p for p, v in nodes(kw) if p]
+        if cand and rnd.random() < 0.6:
+            out['kwds'] = replace(kw, rnd.choice(cand), u)
+        else:
+            out['kwds'] = dict(kw, libraries=[u] if rnd.random() < 0.3 else u)
+        out['unsup'] = u.kind
     elif kind == 'tag':
         out['tag'] = inp['tag'] + rnd.choice(['a', '_', 'x1', '0'])
     elif kind == 'engine':
@@ -324,6 +408,7 @@ def neighbour(rnd, inp, kind):
 
 
 EQUIV = ['repeat', 'kw-order', 'tuple-list', 'bool-int']
+ENTRY = ['via-ffi-verify', 'cdef-options', 'verify-between-cdefs', 'failed-cdef', 'unsupported-value']
 DISTINCT = list(NODE_MUT) + ['drop-key', 'key-value-swap', 'key-boundary', 'move-between-keys',
                              'pre-append', 'pre-cdef-boundary', 'cdef-boundary', 'cdef-merge',
                              'cdef-swap', 'cdef-append-space', 'drop-cdef', 'include-flat']
@@ -338,6 +423,8 @@ def make_inputs(seed):
     for kind in EQUIV:
         out.append((kind, dict(base, kwds=base['kwds'] if kind == 'repeat'
                                else respell(rnd, base['kwds'], kind))))
+    for kind in ENTRY:
+        out.append((kind, neighbour(rnd, base, kind)))
     kinds = list(DISTINCT)
     rnd.shuffle(kinds)
     n = 0
@@ -371,13 +458,15 @@ class CrcRecorder(object):
     """stands in for the binascii module inside cffi.verifier"""
     def __init__(self):
         import binascii
-        self._real, self.calls = binascii, []
+        self._real, self.calls, self.force = binascii, [], []
 
     def __getattr__(self, name):
         return getattr(self._real, name)
 
     def crc32(self, data, *a):
         r = self._real.crc32(data, *a)
+        if self.force:              # name probe: a chosen CRC value instead of the real one
+            r = self.force.pop(0)
         self.calls.append((bytes(data), r & 0xffffffff))
         return r
 
@@ -387,6 +476,9 @@ def child_setup(setup, wd):
     import cffi, cffi.verifier as V, cffi.ffiplatform as P
     st = {'tmp': os.path.join(wd, 'vtmp'), 'rec': None, 'contract': 'none', 'P': P,
           'pyver': '%d.%d' % sys.version_info[:2], 'cffiver': cffi.__version_verifier_modules__}
+    # never compile anything: ffi.verify() = Verifier(...) + load_library(); the module name is
+    # chosen in Verifier.__init__, which runs unchanged
+    V.Verifier.load_library = lambda self: None
     if setup and setup.get('monitor'):
         st['rec'] = V.binascii = CrcRecorder()
         try:
@@ -408,28 +500,96 @@ def child_setup(setup, wd):
     return st
 
 
-def build_ffi(cdefs):
+class HarnessError(Exception):
+    pass
+
+
+def failing_cdef(ffi, which, n):
+    bad = FAILING[which]
+    if isinstance(bad, str):
+        bad = bad.format(u='%d_%d' % (which, n))
+    try:
+        ffi.cdef(bad)
+    except Exception:
+        return
+    raise HarnessError('cdef(%r) was expected to fail' % (bad,))
+
+
+def failed_text(which, n):
+    bad = FAILING[which]
+    return bad.format(u='%d_%d' % (which, n)) if isinstance(bad, str) else None
+
+
+def build_ffi(cdefs, how=None, failed=(), after=None):
+    """how: {top-level index: cdef entry point}; failed: [[position, which]] failing cdef()
+    calls made before the top-level element at that position; after(ffi): called after every
+    top-level element (and once before the first)"""
     from cffi import FFI
     ffi = FFI()
-    for c in cdefs:
+    if after:
+        after(ffi)
+    for i, c in enumerate(list(cdefs) + [None]):
+        for n, (pos, which) in enumerate(failed):
+            if pos == i:
+                failing_cdef(ffi, which, n)
+        if c is None:
+            break
+        opt = (how or {}).get(i)
         if isinstance(c, list):
             ffi.include(build_ffi(c))
+        elif opt == 'override':
+            ffi.cdef(c, override=True)
+        elif opt == 'packed':
+            ffi.cdef(c, packed=True)
+        elif opt == 'pack':
+            ffi.cdef(c, pack=2)
+        elif opt == 'embedding':
+            ffi.embedding_api(c)
         else:
             ffi.cdef(c)
+        if after:
+            after(ffi)
     return ffi
+
+
+def cdefs_with_failed(inp):
+    """the cdef list if the texts of the failing cdef() calls were part of it"""
+    out = []
+    for i, c in enumerate(list(inp['cdefs']) + [None]):
+        for n, (pos, which) in enumerate(inp.get('failed', ())):
+            if pos == i and failed_text(which, n) is not None:
+                out.append(failed_text(which, n))
+        if c is not None:
+            out.append(c)
+    return out
+
+
+def verifier_name(st, ffi, inp):
+    """one name through the entry point the input asks for"""
+    from cffi.verifier import Verifier
+    kw = realise(inp['kwds']) if inp.get('unsup') else inp['kwds']
+    if inp.get('via') == 'ffi.verify':
+        ffi.verify(inp['pre'], st['tmp'] + '-b', tag=inp['tag'],
+                   force_generic_engine=inp['generic'], **kw)
+        return ffi.verifier.get_module_name()
+    return Verifier(ffi, inp['pre'], st['tmp'], tag=inp['tag'],
+                    force_generic_engine=inp['generic'], **kw).get_module_name()
 
 
 def module_name(st, inp, cache=None):
     """cache: FFI objects of one seed by cdef list (Verifier() only reads them)"""
-    from cffi.verifier import Verifier
-    ck = repr(inp['cdefs'])
+    if inp.get('hist') == 'verify-between':     # Verifier() after every cdef()/include()
+        names = []
+        build_ffi(inp['cdefs'], inp.get('how'), inp.get('failed', ()),
+                  after=lambda ffi: names.append(verifier_name(st, ffi, inp)))
+        return names[-1]
+    ck = repr((inp['cdefs'], sorted((inp.get('how') or {}).items()), inp.get('failed')))
     ffi = cache.get(ck) if cache is not None else None
     if ffi is None:
-        ffi = build_ffi(inp['cdefs'])
+        ffi = build_ffi(inp['cdefs'], inp.get('how'), inp.get('failed', ()))
         if cache is not None:
             cache[ck] = ffi
-    return Verifier(ffi, inp['pre'], st['tmp'], tag=inp['tag'],
-                    force_generic_engine=inp['generic'], **inp['kwds']).get_module_name()
+    return verifier_name(st, ffi, inp)
 
 
 def decode_key(st, key, inp):
@@ -454,6 +614,8 @@ def decode_key(st, key, inp):
     if repr(kw) != repr(norm(inp['kwds'])):
         return 'kwds'
     if cdefs != flat_cdefs(inp['cdefs']):
+        if inp.get('failed') and cdefs == flat_cdefs(cdefs_with_failed(inp)):
+            return 'tolerated:failed-cdef-text-in-key'
         return 'cdefs'
     return None
 
@@ -468,21 +630,50 @@ def observe(st, rep, inp, seed, kind, cache):
         rep.bad('flatten-not-invertible', 'flatten(kwds) does not decode back to kwds for %r: %s'
                 % (inp['kwds'], str(e)[:300]), seed)
         return None
-    rep.stat('verifier_calls')
-    calls = list(rec.calls)
-    if len(calls) != 2 or not 0 <= len(calls[0][0]) - len(calls[1][0]) <= 1:
-        rep.bad('key-observation', 'expected crc32(key[0::2]), crc32(key[1::2]); saw %d calls'
-                % len(calls), seed)
+    # one Verifier() per prefix of the cdef list with 'verify-between', else one
+    expect = [inp]
+    if inp.get('hist') == 'verify-between':
+        expect = [dict(inp, cdefs=inp['cdefs'][:j]) for j in range(len(inp['cdefs']) + 1)]
+    allcalls = list(rec.calls)
+    if len(allcalls) != 2 * len(expect):
+        rep.bad('key-observation', 'expected crc32(key[0::2]), crc32(key[1::2]) per Verifier(); '
+                'saw %d calls for %d' % (len(allcalls), len(expect)), seed)
         return None
-    key = bytearray(len(calls[0][0]) + len(calls[1][0]))
-    key[0::2], key[1::2] = calls[0][0], calls[1][0]
-    key = bytes(key)
-    why = decode_key(st, key, inp)
-    rep.stat('keys_decoded')
-    if why:
-        rep.bad('key-decode:' + why, 'hashed key %r does not decode back to the input %r '
-                '(variant %s)' % (key, inp, kind), seed)
-    return key, (calls[0][1], calls[1][1]), name
+    tolerated = False
+    for j, exp in enumerate(expect):
+        rep.stat('verifier_calls')
+        calls = allcalls[2 * j:2 * j + 2]
+        if not 0 <= len(calls[0][0]) - len(calls[1][0]) <= 1:
+            rep.bad('key-observation', 'expected crc32(key[0::2]), crc32(key[1::2])', seed)
+            return None
+        key = bytearray(len(calls[0][0]) + len(calls[1][0]))
+        key[0::2], key[1::2] = calls[0][0], calls[1][0]
+        key = bytes(key)
+        why = decode_key(st, key, exp)
+        rep.stat('keys_decoded')
+        if j < len(expect) - 1:
+            rep.stat('prefix_keys_decoded')
+        if why and why.startswith('tolerated:'):
+            rep.stat(why)
+            tolerated = True
+        elif why:
+            rep.bad('key-decode:' + why, 'hashed key %r does not decode back to the input %r '
+                    '(variant %s, Verifier() call #%d)' % (key, exp, kind, j), seed)
+    return key, (calls[0][1], calls[1][1]), name, tolerated
+
+
+def observe_unsupported(st, rep, inp, seed, cache):
+    """a keyword value of a kind flatten() does not list: rejected with TypeError, or accepted
+    (then the un-monitored runs compare the name across hash seeds); never judged here"""
+    u = inp['unsup']
+    try:
+        module_name(st, inp, cache)
+        rep.stat('unsupported_value_accepted:' + u)
+    except FlattenContractError:
+        rep.stat('unsupported_value_accepted:' + u)
+    except TypeError:
+        rep.stat('unsupported_value_rejected:' + u)
+    rep.case(('unsup', repr(inp['kwds']), repr(inp['cdefs'])), nontrivial=True)
 
 
 def mon_seed(st, rep, seed, rows, seen):
@@ -491,14 +682,22 @@ def mon_seed(st, rep, seed, rows, seen):
         if inp is None:
             rep.stat('neighbour_not_applicable')
             continue
+        if inp.get('unsup'):
+            observe_unsupported(st, rep, inp, seed, cache)
+            continue
         o = observe(st, rep, inp, seed, kind, cache)
         if o is None:
             continue
-        key, crcs, name = o
+        key, crcs, name, tolerated = o
+        if tolerated:               # text of a failing cdef() in the key: a different, allowed key
+            continue
         idn = ident(inp)
         rep.case((idn, inp['tag'], inp['generic']), nontrivial=bool(inp['kwds'] or inp['cdefs']),
                  sample={'input': repr(inp)[:300], 'name': name, 'key': repr(key)[:200]})
         if kind == 'base':      # the parent relates base inputs across the whole run
+            if any((isinstance(v, str) and len(v) >= 100) or (is_list(v) and len(v) >= 10)
+                   for _, v in nodes(inp['kwds'])):
+                rep.stat('base_inputs_with_long_string_or_list')
             rows.append([seed, digest(idn), hashlib.md5(key).hexdigest()[:16], name, crcs[0],
                          crcs[1], inp['tag'], inp['generic']])
         other = seen.setdefault(key, idn)
@@ -509,6 +708,10 @@ def mon_seed(st, rep, seed, rows, seen):
             base = (idn, key, name, inp)
             continue
         bidn, bkey, bname, binp = base
+        for opt in (inp.get('how') or {}).values():
+            rep.stat('cdef_entry:' + opt)
+        if inp.get('failed'):
+            rep.stat('failing_cdef_calls', len(inp['failed']))
         same_rest = (inp['tag'], inp['generic']) == (binp['tag'], binp['generic'])
         what = '%r vs %r' % (binp, inp)
         if idn == bidn:
@@ -564,13 +767,49 @@ def nul_probe(st):
         return {'probe': 'rejected: %s' % type(e).__name__}
 
 
+def name_probe(st, rep, case):
+    """the name as a function of (crc1, crc2, tag, engine): the CRC proxy returns chosen values"""
+    from cffi.verifier import Verifier
+    rnd = random.Random(case['seed'])
+    vals = list(PROBE_CRCS)
+    for _ in range(case['nrand']):
+        vals.append(int(''.join(rnd.choice('00123abf') for _ in range(rnd.randint(1, 8))), 16))
+    vals += [rnd.getrandbits(32) for _ in range(3)]
+    vals = sorted(set(vals))
+    rec, seen = st['rec'], {}
+    ffi = build_ffi(['int f(int);'])
+    inp = {'pre': 'p', 'cdefs': [], 'kwds': {}}
+    for tag in PROBE_TAGS:
+        for generic in (False, True):
+            for via in ('Verifier', 'ffi.verify') if tag in ('', 't') else ('Verifier',):
+                for c1 in vals:
+                    for c2 in vals:
+                        rec.force[:] = [c1, c2]
+                        name = verifier_name(st, ffi, dict(inp, tag=tag, generic=generic, via=via))
+                        if rec.force:
+                            raise HarnessError('crc32 was not called twice')
+                        t = (c1, c2, tag, generic)
+                        rep.stat('name_probe_names')
+                        rep.case(('probe', t), nontrivial=True)
+                        if seen.setdefault(name, t) != t:
+                            rep.bad('name-collision:without-crc-collision', 'name %s for (crc1, crc2, '
+                                    'tag, generic engine) = %r and %r' % (name, seen[name], t), None)
+    del rec.calls[:]
+    rep.stat('name_probe_crc_values', len(vals))
+
+
 def child_case(st, case):
     import traceback
     if case['mode'] == 'nulprobe':
         return nul_probe(st)
     rep = core.ChildRep()
     rows = []
-    if case['mode'] == 'mon':
+    if case['mode'] == 'nameprobe':
+        try:
+            name_probe(st, rep, case)
+        except Exception:
+            rep.bad('harness-exception', traceback.format_exc()[-900:], None)
+    elif case['mode'] == 'mon':
         seen = {}
         e0 = EVALS['n']
         for seed in case['seeds']:
@@ -587,7 +826,13 @@ def child_case(st, case):
                 for idx, (kind, inp) in enumerate(make_inputs(seed)):
                     if inp is None:
                         continue
-                    name = module_name(st, inp, cache)
+                    try:
+                        name = module_name(st, inp, cache)
+                    except TypeError:
+                        if not inp.get('unsup'):
+                            raise
+                        name = 'TypeError'
+                        rep.stat('unmonitored_unsupported_value_rejected')
                     if idx == 0 and module_name(st, copy.deepcopy(inp)) != name:
                         rep.bad('name-differs-on-repeat', 'two evaluations of %r in one process'
                                 % (inp,), seed)
@@ -603,7 +848,7 @@ def child_case(st, case):
 
 # ---------------------------------------------------------------- parent
 def judge(ctx, setup, case, obs):
-    core.absorb(ctx, case, obs, lambda seed: dict(case, seeds=[seed]))
+    core.absorb(ctx, case, obs, lambda seed: case if seed is None else dict(case, seeds=[seed]))
 
 
 def _run(ctx, setup, cases, hashseed, nproc=None):
@@ -702,6 +947,7 @@ def run(ctx):
     seeds = [rng.getrandbits(48) for _ in range(n)]
     cases = [{'mode': 'mon', 'seeds': seeds[i:i + per], 'nflat': 12} for i in range(0, n, per)]
     cases.append({'mode': 'nulprobe'})
+    cases.append({'mode': 'nameprobe', 'seed': rng.getrandbits(32), 'nrand': ctx.scale(8, 40)})
     mon_names = monitored(ctx, cases)
     dn = ctx.scale(150, 3000)
     hs = [0, 0, 1] + [rng.getrandbits(32) for _ in range(3)]
